@@ -7,6 +7,8 @@ import NitroVerif.Drv.Iter
 import NitroVerif.Drv.Own
 import NitroVerif.Drv.Opt
 import NitroVerif.Drv.Log
+import NitroVerif.Drv.MT
+import NitroVerif.Drv.Usage
 
 /-!
 `nvdriver model`  : one case per line on stdin, the model's answer per line on stdout.
@@ -25,6 +27,8 @@ def modelLine (line : String) : String :=
   | "own" :: rest => Drv.Own.model rest
   | "opt" :: rest => Drv.Opt.model rest
   | "log" :: rest => Drv.Log.model rest
+  | "mt" :: rest => Drv.MT.model rest
+  | "usage" :: rest => Drv.Usage.model rest
   | _ => "bad-op"
 
 def judgeLine (line : String) : String :=
@@ -39,6 +43,8 @@ def judgeLine (line : String) : String :=
     | "own" :: rest => Drv.Own.judge rest ans
     | "opt" :: rest => Drv.Opt.judge rest ans
     | "log" :: rest => Drv.Log.judge rest ans
+    | "mt" :: rest => Drv.MT.judge rest ans
+    | "usage" :: rest => Drv.Usage.judge rest ans
     | _ => "bad-op"
   | _ => "bad-op"
 
